@@ -327,6 +327,28 @@ def run_item(ctx, item):
     n_parts = rng.choice([1, 1, 2, 3])
     sc = gen_score.make_score(rng, n_parts=n_parts, features=feats, groups=rng.random() < 0.4, profile="full")
     sc = importer_image(sc, rng)
+    # more of the statement's attribute list: fingering, stems, unpitched notes, clef changes inside a measure
+    for p_ in sc.parts:
+        pitched = [n for n in timemaps.objects_of(p_, S.Note, exact=True)]
+        for n in pitched:
+            r_ = rng.random()
+            if r_ < 0.08:
+                n.technical = [S.Fingering(rng.randint(1, 5))]
+            elif r_ < 0.16:
+                n.stem_direction = rng.choice(["up", "down"])
+        if pitched and rng.random() < 0.3:
+            n = rng.choice(pitched)
+            if n.tie_next is None and n.tie_prev is None and not n.slur_starts and not n.slur_stops and not n.tuplet_starts and not n.tuplet_stops \
+                    and n.fermata is None and not any(isinstance(x, S.GraceNote) and x.grace_next is n for x in timemaps.objects_of(p_, S.GraceNote)):
+                u = S.UnpitchedNote("E", 4, id=n.id + "u", voice=n.voice, staff=n.staff, symbolic_duration=dict(n._sym_dur) if n._sym_dur else None)
+                s_, e_ = n.start.t, n.end.t
+                p_.remove(n)
+                p_.add(u, s_, e_)
+        pitched = [n for n in timemaps.objects_of(p_, S.Note, exact=True)]
+        if pitched and rng.random() < 0.25:
+            inner = sorted({int(n.start.t) for n in pitched})[1:]
+            if inner:
+                p_.add(S.Clef(staff=1, sign=rng.choice(["G", "F", "C"]), line=rng.choice([2, 3, 4]), octave_change=0), rng.choice(inner))
     hostile = None
     r = rng.random()
     p0 = sc.parts[0]
@@ -355,6 +377,19 @@ def run_item(ctx, item):
                 o = S.Note("C", 7, None, id="overlap1", voice=n.voice, staff=n.staff, symbolic_duration=dict(straight_durations(q_)[d_]))
                 p0.add(o, n.start.t, n.start.t + d_)
                 hostile = "intra-voice-overlap"
+    elif r < 0.40:
+        # a tie from a note of one voice to a note of another voice (MusicXML pairs ties by pitch, not by voice)
+        pairs = [(n, n.tie_next) for n in timemaps.objects_of(p0, S.Note, exact=True)
+                 if n.tie_next is not None and n.tie_next.tie_next is None and not n.tie_next.slur_starts and not n.tie_next.slur_stops
+                 and not n.tie_next.tuplet_starts and not n.tie_next.tuplet_stops]
+        if pairs:
+            a_, b_ = rng.choice(pairs)
+            new_voice = max((x.voice or 1) for x in timemaps.objects_of(p0, S.GenericNote, exact=False)) + 1
+            # every note of the chord that b_ belongs to moves along, so that the voice keeps one duration per onset
+            for x in [x for x in timemaps.objects_of(p0, S.GenericNote, exact=False)
+                      if x.start.t == b_.start.t and x.voice == b_.voice and not isinstance(x, S.GraceNote) and x.end.t == b_.end.t]:
+                x.voice = new_voice
+            ctx.extra["cross_voice_tie_cases"] += 1
     ctx.c03_hostile = hostile
     ok, data = ctx.try_call(partitura.save_musicxml, sc)
     metas = sc.meta
